@@ -383,10 +383,41 @@ def scan_file(repo, rel):
                 raise Refuse('%s: style length read outside a function' % rel)
             where = '%s::%s' % (rel, fns[n][0])
             rec(n)['uses'].append((field, classify(field, chain, where)))
+    # functions that RECEIVE the adjustment as a parameter named box_sizing_adjustment (a helper split off a site function),
+    # and every call in this file whose argument list forwards the caller's `box_sizing_adjustment` verbatim
+    param_fns = set()
+    for n, (name, b, e) in enumerate(fns):
+        k = b - 1
+        while k > 0 and not (toks[k] == ('id', 'fn') and toks[k + 1] == ('id', name)):
+            k -= 1
+        head = [t_[1] for t_ in toks[k:b]]
+        for q in range(len(head) - 1):
+            if head[q] == 'box_sizing_adjustment' and head[q + 1] == ':':
+                param_fns.add(name)
+    calls = []   # (callee name, caller fn name or None, forwards the adjustment as a bare argument)
+    for i in range(1, len(toks) - 1):
+        if toks[i][0] == 'id' and toks[i + 1][1] == '(' and toks[i - 1] != ('id', 'fn'):
+            close = match_brace(toks, i + 1)
+            args, cur, depth = [], [], 0
+            for t_ in toks[i + 2:close]:
+                if t_[0] == 'op' and t_[1] in '([{':
+                    depth += 1
+                elif t_[0] == 'op' and t_[1] in ')]}':
+                    depth -= 1
+                if t_[1] == ',' and depth == 0:
+                    args.append(cur)
+                    cur = []
+                else:
+                    cur.append(t_[1])
+            if cur:
+                args.append(cur)
+            n = owner[i]
+            calls.append((toks[i][1], fns[n][0] if n is not None else None, ['box_sizing_adjustment'] in args))
     out = []
-    for n in sorted(per_fn):
+    for n in sorted(set(per_fn) | {k for k, f in enumerate(fns) if f[0] in param_fns}):
         name, b, e = fns[n]
-        out.append((rel, name, per_fn[n]['adjs'], per_fn[n]['uses'], norm_tokens(toks[b:e + 1])))
+        d = per_fn.get(n, {'adjs': [], 'uses': []})
+        out.append((rel, name, d['adjs'], d['uses'], norm_tokens(toks[b:e + 1]), name in param_fns, calls))
     return out
 
 
@@ -401,18 +432,34 @@ def generate(repo):
         raise Refuse('no sources under src/compute')
     sites, unsited = [], []
     fps = {}
+    all_calls = []
+    scanned = []
     for rel in files:
-        for (f, name, adjs, uses, body) in scan_file(repo, rel):
-            short = f[len('src/compute/'):]
-            key = '%s::%s' % (short, name)
-            if key in fps:
-                raise Refuse('two functions named %s' % key)
-            fps[key] = body
-            if adjs:
-                sites.append((short, name, adjs, uses))
-            else:
-                for (field, kind) in uses:
-                    unsited.append((short, name, field, kind))
+        per_file_calls = None
+        for (f, name, adjs, uses, body, takes_param, calls) in scan_file(repo, rel):
+            scanned.append((f, name, adjs, uses, body, takes_param))
+            per_file_calls = calls
+        if per_file_calls is not None:
+            for c in per_file_calls:
+                all_calls.append((rel,) + c)
+    wellformed = {(f, name) for (f, name, adjs, uses, body, tp) in scanned if adjs and all(c and p for (c, p, pr) in adjs)}
+    for (f, name, adjs, uses, body, takes_param) in scanned:
+        short = f[len('src/compute/'):]
+        key = '%s::%s' % (short, name)
+        if key in fps:
+            raise Refuse('two functions named %s' % key)
+        fps[key] = body
+        if takes_param and not adjs:
+            # a helper that receives the adjustment: it counts as a site exactly when it is called at least once and EVERY call
+            # (same file) forwards the `box_sizing_adjustment` of a function whose own adjustment is well formed
+            mine = [c for c in all_calls if c[0] == f and c[1] == name]
+            ok = bool(mine) and all(c[3] and (f, c[2]) in wellformed for c in mine)
+            adjs = [(ok, ok, '')]
+        if adjs:
+            sites.append((short, name, adjs, uses))
+        else:
+            for (field, kind) in uses:
+                unsited.append((short, name, field, kind))
     if not sites:
         raise Refuse('no `let box_sizing_adjustment =` found at all')
     w = []
